@@ -1,4 +1,5 @@
 \* quick tier: ONE run model-checks the clauses on every history of two calls and prints them for the S2C replay
+\* (FormIrrelevant, the costly one, is checked by the thorough configurations)
 CONSTANTS MaxSteps = 2
           FreeSteps = 1
           Scope = "quick"
@@ -8,7 +9,6 @@ INIT Init
 NEXT NextGen
 INVARIANT PoolUntouched
 INVARIANT ResultByOriginal
-INVARIANT FormIrrelevant
 INVARIANT RightListPinned
 INVARIANT SwapArguments
 INVARIANT ListAggregates
